@@ -28,7 +28,7 @@ func runC02(p *Prog, r *Report) {
 	r.Min("C02.R1", 2)
 	r.Min("C02.R2", 2)
 	r.Min("C02.R3", 6+2+1)
-	r.Min("C02.R4", 3)
+	r.Min("C02.R4", 4)
 	r.Min("C02.R5", 2)
 	okFns := checkIPv4Typestate(p, r)
 	checkDstSubnetWriters(p, r, okFns)
@@ -659,6 +659,36 @@ func checkFilterStage(p *Prog, r *Report) {
 			n++
 			checkFilterLoop(p, r, g)
 		}
+		// every accepting return hands out the channel made (and filtered) here, never the delegate's own
+		okOut, whyOut := true, ""
+		nRet := 0
+		for _, s := range PathsInl(fn).Segs {
+			if !s.Returns() || retClass(s) == retFail {
+				continue
+			}
+			nRet++
+			made := false
+			for _, o := range p.Origins(s.Resolve(s.Exit.(*ssa.Return).Results[0])) {
+				if mc, isMC := o.(*ssa.MakeChan); isMC && mc.Parent() == fn {
+					made = true
+				} else {
+					okOut, whyOut = false, "an accepting path returns "+s.Term(s.Exit.(*ssa.Return).Results[0])+" (the unfiltered stream of the delegate)"
+				}
+			}
+			if !made {
+				okOut, whyOut = false, "an accepting path does not return the filtered channel"
+			}
+			spawned := false
+			for _, e := range s.Events {
+				if e.Kind == EvGo {
+					spawned = true
+				}
+			}
+			if !spawned {
+				okOut, whyOut = false, "an accepting path does not start the filter goroutine"
+			}
+		}
+		r.Check(okOut && nRet > 0, "C02.R4", FuncName(fn)+"/always-filtered", p.Pos(fn.Pos()), "every accepting path of the exclusion stage returns its own filtered channel (no bypass that hands out the delegate's stream)", whyOut)
 	}
 	if n == 0 {
 		r.Undecided("C02.R4", "exclusion filter stage", "-", "a RequestGenerator holding an IPContainer exists", "not found")
